@@ -232,6 +232,8 @@ def check(facts, rep, tier, cfg):
     rep.rule("C15.R5", "only the stream handle (own id) and the multiplexor handle (0) report on the dropped-flows queue: the id of a resolved bind request is free for re-use and nothing closes it later")
     check_dropped_flow_senders(facts, rep, crate, "C15.R5")
     check_option_setters(facts, rep, crate, "C15.R4", ['bind_buffer_size'])
+    rep.rule("C15.S1", "S1: every message taken off the outbound queue is handed to the WebSocket sink by the send loop (= C02.R2): the frames this property relies on are not dropped, deduplicated or reordered on the way out")
+    import_outbound_queue_rule(facts, rep, tier, cfg, "C15.S1")
     rep.rule("C15.S7", "who-may: the functions that touch the critical resources behind this property are those of the reference tree (flow table, closed flag, per-stream / datagram / outbound queues, last-pong timestamp, client id maps, shared TLS identity)")
     import whomay
     whomay.check(facts, rep, "C15.S7", "C15")
